@@ -136,14 +136,15 @@ class QsModel:
     def snapshot(self, j):
         return {"jobid": j.jobid, "serial": j.serial, "channel": j.channel, "priority": j.priority,
                 "payload": j.payload, "timeout": j.deadline, "done": j.state == "d",
-                "result": j.result, "error": j.error, "info": j.info}
+                "result": j.result, "error": j.error, "info": j.info,
+                "ttl": j.fin_ttl if j.state == "d" else j.ttl}
 
     def _cmp_snapshot(self, j, got, cls, what):
         if not isinstance(got, dict):
             self._fail(cls, f"{what}: expected a job snapshot for {j.tag()}, got {got!r}")
         exp = self.snapshot(j)
         for k, v in exp.items():
-            default = {"done": False, "result": None, "error": None, "info": {}}.get(k)
+            default = {"done": False, "result": None, "error": None, "info": {}, "ttl": DEFAULT_TTL}.get(k)
             g = got.get(k, default)
             if g != v:
                 kls = cls
